@@ -2,7 +2,12 @@
 
 package proxy
 
-import "github.com/datastax/go-cassandra-native-protocol/primitive"
+import (
+	"time"
+
+	"github.com/datastax/cql-proxy/proxycore"
+	"github.com/datastax/go-cassandra-native-protocol/primitive"
+)
 
 // VerifConsistencies builds values for Config.UnsupportedWriteConsistencies, whose element
 // type is unexported, so that a check can configure the override without going through
@@ -18,4 +23,11 @@ func VerifConsistencies(levels ...primitive.ConsistencyLevel) []clWrapper {
 // VerifConsistency builds a value for Config.UnsupportedWriteConsistencyOverride.
 func VerifConsistency(level primitive.ConsistencyLevel) clWrapper {
 	return clWrapper{level}
+}
+
+// VerifSetRefreshWindow shortens the topology refresh window of the proxy's cluster (10s by default and not
+// configurable through Config) so that a check can observe topology changes in milliseconds. Call it right after
+// Connect, before any backend event is emitted.
+func VerifSetRefreshWindow(p *Proxy, d time.Duration) {
+	proxycore.VerifSetRefreshWindow(p.cluster, d)
 }
